@@ -108,11 +108,12 @@ def verify_grid(w, tbl, sh, m, when):
                 w.report("grid|span-on-independent-cell|%s" % when, "cell (%d,%d) span=(%d,%d)" % (i, j, cell.span_height, cell.span_width), CLAUSES["split"])
     sw = sum(int(c.width) for c in tbl.columns)
     shh = sum(int(r.height) for r in tbl.rows)
-    if m.get("check_size", True):
-        if int(sh.width) != sw:
-            w.report("size|width|%s" % when, "frame width %d != sum of column widths %d" % (sh.width, sw), CLAUSES["size"])
-        if int(sh.height) != shh:
-            w.report("size|height|%s" % when, "frame height %d != sum of row heights %d" % (sh.height, shh), CLAUSES["size"])
+    # frame size == sums holds from creation on; if the history resized the graphic frame itself (c14.frame_geom) that
+    # dimension is only asserted again after the next column-width / row-height change (which must re-sync it)
+    if m.get("check_w", True) and int(sh.width) != sw:
+        w.report("size|width|%s" % when, "frame width %d != sum of column widths %d" % (sh.width, sw), CLAUSES["size"])
+    if m.get("check_h", True) and int(sh.height) != shh:
+        w.report("size|height|%s" % when, "frame height %d != sum of row heights %d" % (sh.height, shh), CLAUSES["size"])
     w.stats.hit("c14_grid_verified")
 
 
@@ -143,7 +144,7 @@ def _c14_add(w, deck, a):
     R, C, W, H = a["rows"], a["cols"], a["w"], a["h"]
     gf = sl.shapes.add_table(R, C, a["x"], a["y"], W, H)
     tbl = gf.table
-    m = {"rows": R, "cols": C, "rects": [], "check_size": True}
+    m = {"rows": R, "cols": C, "rects": [], "check_w": True, "check_h": True}
     if len(tbl.rows) != R or any(len(list(row.cells)) != C for row in tbl.rows) or len(tbl.columns) != C:
         w.report("create|shape", "%dx%d requested" % (R, C), CLAUSES["create"])
     sw = sum(int(c.width) for c in tbl.columns)
@@ -253,10 +254,23 @@ def _c14_resize(w, deck, a):
     sl, sh, tbl, m = _pick_table(w, deck, a)
     if a["what"] == "row":
         tbl.rows[a["r"] % m["rows"]].height = a["v"]
+        m["check_h"] = True
     else:
         tbl.columns[a["c"] % m["cols"]].width = a["v"]
+        m["check_w"] = True
     w.stats.hit("c14_resizes")
     verify_grid(w, tbl, sh, m, "after-resize")
+
+
+@O.op("c14.frame_geom", "c14", weight=1.0)
+@O.gen(lambda r: dict(g_tbl(r), what=r.choice(["width", "height"]), v=r.choice([1, 914400, r.randint(1, 6000000)])))
+def _c14_frame(w, deck, a):
+    """The caller resizes the graphic frame itself; the table grid is untouched and the next column/row change re-syncs."""
+    sl, sh, tbl, m = _pick_table(w, deck, a)
+    setattr(sh, a["what"], a["v"])
+    m["check_w" if a["what"] == "width" else "check_h"] = False
+    w.stats.hit("c14_frame_resized")
+    verify_grid(w, tbl, sh, m, "after-frame-resize")
 
 
 @O.op("c14.merge_other_table", "c14", weight=1.0)
@@ -313,7 +327,7 @@ class GridOracle(Oracle):
         if ev["op"] == "set_geom" and outcome == "ok":
             for deck in w.decks:
                 for m in _memo(deck).values():
-                    m["check_size"] = False
+                    m["check_w"] = m["check_h"] = False
 
 
 def plan(tier):
@@ -350,6 +364,11 @@ def gen_trace(seed: int, tier: str) -> dict:
                 # bias towards small ranges so that several disjoint merges can coexist
                 e["r2"] = e["r"] + r2.choice([0, 0, 1, 1, 2])
                 e["c2"] = e["c"] + r2.choice([0, 1, 1, 2])
+    rx = S("rewrite")
+    for e in events:
+        if e["op"] in ("restart", "reopen") and rx.random() < 0.3:
+            # between the sessions the file is rewritten by a producer that omits the optional a:tblPr
+            e["xform"] = [{"kind": "rewrite_slides", "how": "strip_tblPr"}]
     return {"property": ID, "seed": seed, "tier": tier, "config": {"max_slides": 4, "max_shapes": 12},
             "start": [{"deck": "default"}], "events": pre + events}
 
@@ -418,4 +437,23 @@ def pinned_traces(tier):
             evs.append({"op": "restart"})
             out.append({"property": ID, "seed": "sweep-%dx%d" % (R, C), "tier": "pinned", "config": {"pinned": True},
                         "start": [{"deck": "default"}], "events": evs})
+    evs = [{"op": "add_slide", "layout": 6}, {"op": "c14.add_table", "slide": 0, "rows": 3, "cols": 3, "w": 900000, "h": 600000, "x": 0, "y": 0},
+           {"op": "c14.cell_text", "table": 0, "r": 1, "c": 0, "text": "a"}, {"op": "checkpoint", "sink": "seekable"},
+           {"op": "restart", "xform": [{"kind": "rewrite_slides", "how": "strip_tblPr"}]},
+           {"op": "c14.merge", "table": 0, "r": 1, "c": 0, "r2": 2, "c2": 1}, {"op": "c14.merge", "table": 0, "r": 0, "c": 0, "r2": 0, "c2": 2},
+           {"op": "c14.merge", "table": 0, "r": 2, "c": 2, "r2": 1, "c2": 2}, {"op": "c14.split", "table": 0, "r": 1, "c": 0}, {"op": "c14.split", "table": 0, "r": 2, "c": 1},
+           {"op": "checkpoint", "sink": "seekable"}, {"op": "restart"}]
+    out.append({"property": ID, "seed": "table-without-tblPr", "tier": "pinned", "config": {"pinned": True}, "start": [{"deck": "default"}], "events": evs})
+    evs = [{"op": "add_slide", "layout": 6}, {"op": "c14.add_table", "slide": 0, "rows": 4, "cols": 4, "w": 900000, "h": 600000, "x": 0, "y": 0},
+           {"op": "c14.merge", "table": 0, "r": 0, "c": 0, "r2": 1, "c2": 1, "held": True}, {"op": "c14.split", "table": 0, "r": 0, "c": 0, "held": True},
+           {"op": "c14.merge", "table": 0, "r": 0, "c": 0, "r2": 0, "c2": 3, "held": True}, {"op": "c14.merge", "table": 0, "r": 1, "c": 0, "r2": 1, "c2": 1},
+           {"op": "c14.split", "table": 0, "r": 0, "c": 0, "held": True}, {"op": "c14.merge", "table": 0, "r": 0, "c": 0, "r2": 0, "c2": 1, "held": True},
+           {"op": "c14.split", "table": 0, "r": 0, "c": 0, "held": True}, {"op": "checkpoint", "sink": "seekable"}, {"op": "restart"}]
+    out.append({"property": ID, "seed": "same-cell-handle-split-merge-split", "tier": "pinned", "config": {"pinned": True}, "start": [{"deck": "default"}], "events": evs})
+    evs = [{"op": "add_slide", "layout": 6}, {"op": "c14.add_table", "slide": 0, "rows": 2, "cols": 3, "w": 900000, "h": 600000, "x": 0, "y": 0},
+           {"op": "c14.frame_geom", "table": 0, "what": "width", "v": 5000000}, {"op": "c14.resize", "table": 0, "what": "col", "r": 0, "c": 1, "v": 400000},
+           {"op": "c14.frame_geom", "table": 0, "what": "height", "v": 1}, {"op": "c14.resize", "table": 0, "what": "row", "r": 1, "c": 0, "v": 123456},
+           {"op": "c14.frame_geom", "table": 0, "what": "width", "v": 1}, {"op": "reopen", "sink": "seekable", "form": "stream"},
+           {"op": "c14.resize", "table": 0, "what": "col", "r": 0, "c": 0, "v": 7}, {"op": "checkpoint", "sink": "seekable"}, {"op": "restart"}]
+    out.append({"property": ID, "seed": "frame-resized-then-column-changed", "tier": "pinned", "config": {"pinned": True}, "start": [{"deck": "default"}], "events": evs})
     return out
